@@ -1935,8 +1935,8 @@ class Processor:
                         prefix="Processor::_get_nodes_by_traversal:  ",
                         data=ele)
                     yield NodeCoords(
-                        ele, parent, ele, next_translated_path, ancestry,
-                        pathseg)
+                        ele, data, ele, next_translated_path,
+                        ancestry + [(data, ele)], pathseg)
             else:
                 self.logger.debug(
                     "Yielding unfiltered Scalar value:",
@@ -2091,7 +2091,8 @@ class Processor:
                     "Yielding set element:",
                     prefix=dbg_prefix, data=ele)
                 yield NodeCoords(
-                    ele, parent, ele, next_translated_path, ancestry, pathseg)
+                    ele, data, ele, next_translated_path,
+                    ancestry + [(data, ele)], pathseg)
             return
 
         self.logger.debug(
